@@ -14,10 +14,34 @@ type Heap struct {
 	comps     map[string]Term
 	vc        *VC
 	epochBase string // non-empty after a whole-heap havoc: untouched components resolve to this epoch
+	// a heap merged from paths that resolve untouched components differently (one of them
+	// went through a whole-heap havoc): a component first mentioned AFTER the merge is the
+	// if-then-else of what the paths say about it
+	parts   []*Heap
+	partPCs []Term
 }
 
 func (h *Heap) Comp(name string, sort Sort) Term {
 	if t, ok := h.comps[name]; ok {
+		return t
+	}
+	if len(h.parts) > 0 {
+		n := len(h.parts)
+		t := h.parts[n-1].Comp(name, sort)
+		same := true
+		for i := n - 2; i >= 0; i-- {
+			ti := h.parts[i].Comp(name, sort)
+			if ti.S != t.S {
+				same = false
+			}
+			t = Ite(h.partPCs[i], ti, t)
+		}
+		if same {
+			t = h.parts[n-1].Comp(name, sort)
+		} else {
+			t = h.vc.Define("h."+name, t)
+		}
+		h.comps[name] = t
 		return t
 	}
 	if h.epochBase != "" {
@@ -27,7 +51,7 @@ func (h *Heap) Comp(name string, sort Sort) Term {
 }
 
 func (h *Heap) Set(name string, t Term) *Heap {
-	n := &Heap{comps: make(map[string]Term, len(h.comps)+1), vc: h.vc, epochBase: h.epochBase}
+	n := &Heap{comps: make(map[string]Term, len(h.comps)+1), vc: h.vc, epochBase: h.epochBase, parts: h.parts, partPCs: h.partPCs}
 	for k, v := range h.comps {
 		n.comps[k] = v
 	}
